@@ -2,6 +2,7 @@ from typing import Generic, Iterator, TypeVar, override
 
 from rogw.tranp.compatible.python.embed import Embed, __actual__
 from rogw.tranp.dsn.module import ModuleDSN
+from rogw.tranp.errors import Errors
 from rogw.tranp.lang.annotation import duck_typed, implements
 from rogw.tranp.lang.sequence import flatten
 from rogw.tranp.syntax.node.accessible import ClassOperations
@@ -330,7 +331,13 @@ class ClassDef(Node, IDomain, IScope, INamespace, IDeclaration, ISymbol):
 	@property
 	def actual_symbol(self) -> str | None:
 		embedder = self._dig_embedder(__actual__.__name__)
-		return embedder.arguments[0].value.as_a(String).as_string if embedder else None
+		if embedder is None:
+			return None
+
+		if len(embedder.arguments) == 0:
+			raise Errors.InvalidRelation(self, embedder, 'Missing argument of __actual__')
+
+		return embedder.arguments[0].value.as_a(String).as_string
 
 	@property
 	def alias_embedder(self) -> Decorator | None:
